@@ -37,7 +37,7 @@ ASSUMPTIONS = [
 MANIFEST = {
     "level": LEVEL,
     "technique": "deterministic simulation: seeded check/compile histories with failing definitions injected, each op compared with a fresh-session reference computed in a sibling fork",
-    "text": "Seeded exploration of session histories over two workloads. (1) Generated definition pools of 1-3 modules sharing names: 10-320 ops quick, up to 700 thorough, with immediate repeats (also right after a failure) and failing definitions injected from 33 mistake kinds, stratified over the cases, incl. comptime bodies that raise, nested recursive functions whose own body fails, broken helper/overload-variant/struct bodies and wrapper chains that put the failure at dependency depth 1-2; families: generics, nat-generics, overloads, comptime functions and arguments (int/str/bool/float), same-position factory products, Option/Either helpers, generic structs, comptime lists. (2) The repository's own tests/integration functions (542 items) run in seeded orders with repeats, 8 histories back to back per session, every public API call they make compared with the same item run alone in a fresh session. After every op the canonical HUGR / rendered diagnostic / escaping exception must equal the reference: a fresh session (sibling process forked before any check or compile) for the 6-10 (definition, op) pairs first used latest in the history, the first occurrence in the history for the others. A final round re-compiles definitions once faults stop. Sampling, not proof.",
+    "text": "Seeded exploration of session histories over three workloads. (1) Generated definition pools of 1-3 modules sharing names: 10-320 ops quick, up to 700 thorough, with immediate repeats (also right after a failure) and failing definitions injected from 33 mistake kinds, stratified over the cases, incl. comptime bodies that raise, nested recursive functions whose own body fails, broken helper/overload-variant/struct bodies and wrapper chains that put the failure at dependency depth 1-2; families: generics, nat-generics, overloads, comptime functions and arguments (int/str/bool/float), same-position factory products, Option/Either helpers, generic structs, comptime lists. (2) Staged pools: the same kind of generated module, but its definitions are created inside a running Python function, stage by stage, interleaved with checks and compiles of the definitions that already exist (function-frame namespaces that keep changing); reference per (definition, op, stage) = a fresh session in which the same stages were created and nothing else was checked or compiled. (3) The repository's own tests/integration functions (542 items) run in seeded orders with repeats, 8 histories back to back per session, every public API call they make compared with the same item run alone in a fresh session. After every op the canonical HUGR / rendered diagnostic / escaping exception must equal the reference: a fresh session (sibling process forked before any check or compile) for the 6-10 (definition, op) pairs first used latest in the history, the first occurrence in the history for the others. A final round re-compiles definitions once faults stop. Sampling, not proof.",
     "note": "Trusted: fork() as the fresh-session reference, the canonicaliser (renumbering of generated names only), the program generator as workload, the compat shim.",
     "design_ref": "DESIGN.md section 3 (C11)",
 }
@@ -75,12 +75,16 @@ def plan(tier: str, seed: int) -> dict:
         return {"budget_s": 140, "min_budget": 40, "slice": 16, "scratch": cache, "phases": [
             {"name": "generated", "n_cases": 400, "cases_per_job": 1,
              "params": {"min_ops": 10, "max_ops": 320, "max_stmts": 10, "max_refs": 6}},
+            {"name": "staged", "n_cases": 300, "cases_per_job": 1,
+             "params": {"mode": "staged", "min_ops": 8, "max_ops": 40, "max_stmts": 8, "max_refs": 5}},
             {"name": "corpus", "n_cases": 640, "cases_per_job": 8,
              "params": {"mode": "corpus", "min_ops": 8, "max_ops": 40, "pool": 8,
                         "subset": [seed, 160], "ref_cache": cache}}]}
     return {"budget_s": 1500, "min_budget": 200, "scratch": cache, "phases": [
         {"name": "generated", "n_cases": 20000, "cases_per_job": 1,
          "params": {"min_ops": 10, "max_ops": 700, "max_stmts": 16, "max_refs": 10}},
+        {"name": "staged", "n_cases": 15000, "cases_per_job": 1,
+         "params": {"mode": "staged", "min_ops": 8, "max_ops": 60, "max_stmts": 12, "max_refs": 6}},
         {"name": "corpus", "n_cases": 40000, "cases_per_job": 8,
          "params": {"mode": "corpus", "min_ops": 10, "max_ops": 80, "pool": 12,
                     "ref_cache": cache}}]}
@@ -336,9 +340,187 @@ def run_case_corpus(ch: Choices, params: dict) -> dict:
     return res
 
 
+
+# ------------------------------------------------------------ staged pools (function scope)
+def staged_source(prog: dict, ch: Choices) -> tuple[str, list[list[str]]]:
+    """Wraps the top-level statements of a generated module into a generator function that
+    creates the definitions stage by stage (`yield`ing the new objects), so that they live
+    in a *function* frame whose local names keep changing while earlier definitions are
+    already being checked and compiled.  Returns (source, names defined per stage)."""
+    import ast as _ast
+    lines = prog["source"].splitlines()
+    tree = _ast.parse(prog["source"])
+    chunks = []
+    for node in tree.body:
+        start = min([node.lineno] + [d.lineno for d in getattr(node, "decorator_list", [])])
+        names = []
+        if isinstance(node, _ast.FunctionDef | _ast.ClassDef):
+            names = [node.name]
+        elif isinstance(node, _ast.Assign):
+            names = [t.id for t in node.targets if isinstance(t, _ast.Name)]
+        chunks.append((lines[start - 1:node.end_lineno], names))
+    stages: list[list[str]] = []
+    body: list[str] = []
+    i = 0
+    while i < len(chunks):
+        k = ch.rng_int(1, 3, "chunks_per_stage")
+        names: list[str] = []
+        for cl, nm in chunks[i:i + k]:
+            body += ["    " + l for l in cl] + [""]
+            names += nm
+        i += k
+        guppy_names = [n for n in names if n in prog["defs"]]
+        body.append("    yield {" + ", ".join(f"{n!r}: {n}" for n in guppy_names) + "}")
+        stages.append(guppy_names)
+    return "def _stages():\n" + "\n".join(body) + "\n", stages
+
+
+def run_case_staged(ch: Choices, params: dict) -> dict:
+    """Definitions created inside a running Python function, stage by stage, interleaved
+    with checks and compiles of the definitions that already exist.  Reference for
+    (definition, op, stage): a fresh session (sibling fork) in which the same stages were
+    created and nothing else was checked or compiled."""
+    from guppylang.defs import GuppyDefinition
+    log = EventLog()
+    viol: list[dict] = []
+    faults: dict[str, int] = {}
+    probes = {"staged_ops": 0, "staged_advances_between_ops": 0, "reference_forks": 0,
+              "ops_vs_fresh_reference": 0, "ops_vs_first_occurrence": 0, "failing_ops": 0}
+    mistake = None
+    if ch.draw(3, "has_fault") == 0:
+        kind = C11_MISTAKES[(params.get("_index", 0)) % len(C11_MISTAKES)] \
+            if params.get("_index", -1) >= 0 else C11_MISTAKES[0]
+        mistake = {"kind": kind, "k": ch.rng_int(1, 2, "k")}
+        faults[kind] = 1
+    g = gen.ProgGen(ch, {"max_stmts": params.get("max_stmts", 8), "allow_capture": True,
+                         "shadow_names": True, "int_helper": True})
+    prog = g.module(mistake=mistake, prefix="")
+    try:
+        src, stages = staged_source(prog, ch)
+        mod = genv.make_module("c11_staged", src)
+    except BaseException as e:  # noqa: BLE001
+        return {"violations": [], "digest": "skip", "steps": 0, "keys": [], "nontrivial_keys": [],
+                "extra": {"staged_source_rejected": 1}, "probes": probes,
+                "trace": {"error": f"{type(e).__name__}: {e}"}}
+    # ---- static history: advance / op on a definition that exists at that point
+    n_steps = ch.rng_int(params.get("min_ops", 8), params.get("max_ops", 40), "n_ops")
+    history: list[tuple] = []
+    stage = 1
+    avail = list(stages[0])
+    for _ in range(n_steps):
+        if stage < len(stages) and (not avail or ch.draw(4, "advance") == 0):
+            history.append(("adv",))
+            avail += stages[stage]
+            stage += 1
+            continue
+        if not avail:
+            break
+        name = avail[ch.draw(len(avail), "def")]
+        if history and history[-1][0] != "adv" and ch.draw(4, "again") == 3:
+            name = history[-1][0]
+        op = OPS[ch.draw(2, "op")] if name != prog["entry"] else OPS[ch.draw(3, "op")]
+        history.append((name, op, stage))
+    while stage < len(stages):
+        history.append(("adv",))
+        avail += stages[stage]
+        stage += 1
+    history += [(n, "compile_function", stage) for n in ch.shuffle(list(avail), "final")[:4]]
+    # ---- references (pristine point: module defined, generator not started)
+    first_pos: dict[tuple, int] = {}
+    for pos, h in enumerate(history):
+        if h[0] != "adv":
+            first_pos.setdefault(h, pos)
+    by_exposure = sorted(first_pos, key=lambda k: (-first_pos[k], k))
+
+    def fresh(name: str, op: str, upto: int):
+        gobj = mod._stages()
+        defs: dict = {}
+        try:
+            for _ in range(upto):
+                defs.update(next(gobj))
+        except BaseException as e:  # noqa: BLE001
+            return {"kind": "exception", "error": "definition:" + type(e).__name__, "text": str(e)[:200]}
+        d = defs.get(name)
+        if not isinstance(d, GuppyDefinition):
+            return {"kind": "exception", "error": "not-a-definition", "text": name}
+        return do_op(d, op)
+
+    refs: dict[tuple, dict] = {}
+    for key in by_exposure[: params.get("max_refs", 6)]:
+        refs[key] = reference_fork(lambda key=key: fresh(*key))
+        probes["reference_forks"] += 1
+        if refs[key]["kind"] == "harness":
+            raise RuntimeError(f"reference fork failed: {refs[key]}")
+    fresh_keys = set(refs)
+    # ---- the history
+    gobj = mod._stages()
+    defs: dict = {}
+    steps = 0
+    rendered: list[str] = []
+    last_adv = False
+    try:
+        defs.update(next(gobj))
+    except BaseException as e:  # noqa: BLE001
+        rendered.append(f"stage 1 failed at definition time: {type(e).__name__}")
+        history = []
+    for h in history:
+        if h[0] == "adv":
+            try:
+                defs.update(next(gobj))
+            except BaseException as e:  # noqa: BLE001 - definition-time failure ends the staging
+                rendered.append(f"advance failed at definition time: {type(e).__name__}")
+                break
+            rendered.append("<next stage defined>")
+            log.add("adv")
+            last_adv = True
+            continue
+        name, op, st = h
+        d = defs.get(name)
+        if not isinstance(d, GuppyDefinition):
+            continue
+        steps += 1
+        probes["staged_ops"] += 1
+        if last_adv:
+            probes["staged_advances_between_ops"] += 1
+        last_adv = False
+        got = do_op(d, op)
+        got.pop("_text", None)
+        if h not in refs:
+            refs[h] = dict(got)
+        ref = refs[h]
+        probes["ops_vs_fresh_reference" if h in fresh_keys else "ops_vs_first_occurrence"] += 1
+        if got["kind"] != "ok":
+            probes["failing_ops"] += 1
+        rendered.append(f"{name}.{op}()  # stage {st} -> {genv.short(got)}")
+        log.add(name, op, st, genv.short(got))
+        if not same(ref, got):
+            cls = classify(ref, got)
+            viol.append({"cls": f"C11/{cls}",
+                         "sig": {"op": op, "staged": True, "ref": ref["kind"] + ":" + (ref.get("error") or ""),
+                                 "got": got["kind"] + ":" + (got.get("error") or "")},
+                         "expected": {k: ref.get(k) for k in ("kind", "error", "sha", "text")},
+                         "observed": {k: got.get(k) for k in ("kind", "error", "sha", "text")},
+                         "detail": {"step": steps, "op": f"{name}.{op}()", "stage": st,
+                                    "history_before": rendered[:-1][-12:]}})
+            if len(viol) >= 3:
+                break
+    shape = hashlib.sha256((src + repr(history)).encode()).hexdigest()[:16]
+    res = {"violations": viol, "digest": log.digest(), "steps": steps, "faults": faults,
+           "probes": probes, "keys": [shape],
+           "nontrivial_keys": [shape] if steps >= 3 and len(stages) >= 3 else [],
+           "extra": {"staged_histories": 1, "stages": len(stages)},
+           "sets": {"mistake_kinds_planted": sorted(faults)},
+           "trace": {"module": src, "stages": stages, "history": rendered}}
+    if viol or ch.record[0] % 16 == 0:
+        res["sample"] = {"stages": stages, "history": rendered[:25], "module": src[:1200]}
+    return res
+
+
 def run_case(ch: Choices, params: dict) -> dict:
     if params.get("mode") == "corpus":
         return run_case_corpus(ch, params)
+    if params.get("mode") == "staged":
+        return run_case_staged(ch, params)
     log = EventLog()
     viol: list[dict] = []
     faults: dict[str, int] = {}
@@ -504,6 +686,7 @@ def coverage(agg, plan: dict) -> dict:
         "ops_compared": agg.steps,
         "histories_generated_pools": agg.extra.get("cases_phase_generated", 0),
         "histories_repository_corpus": agg.extra.get("cases_phase_corpus", 0),
+        "histories_staged_pools": agg.extra.get("cases_phase_staged", 0),
         "corpus": "second workload: histories over the test functions of /repo's tests/integration (542 items: each defines, checks and compiles its own programs - std library incl. option/either/collections, generics, structs, comptime, modifiers, tensors, pytket loading ...), 8 histories per child run back to back as one long session; every public API call (check/compile/compile_function/compile_entrypoint) an item makes is compared with the same call of the item run alone in a sibling fork of the pristine session; stand-ins: validate = no-op, run_int_fn & co compile the conftest's entry point instead of emulating, EmulatorBuilder.build ends the item",
         "components_real": ["engine.py CompilationEngine / DefinitionStore", "decorators", "checker", "compiler", "tracing"],
         "components_stub": ["'emulate' replaced by compile", "compat shim (3 patch points)",
